@@ -410,6 +410,13 @@ func (d *dataPlane) SetKey(key []byte) error {
 func (d *dataPlane) SetPortRange(start, end uint16) {
 	d.dispatchedPortStart = start
 	d.dispatchedPortEnd = end
+	// The underlay does the port translation on local delivery: it needs the range too, whether the
+	// internal interface has been added already or not.
+	d.mtx.Lock()
+	defer d.mtx.Unlock()
+	for _, u := range d.underlays {
+		u.SetDispatchPorts(start, end, topology.EndhostPort)
+	}
 }
 
 // AddInternalInterface sets the interface the data-plane will use to send/receive traffic in the
@@ -433,6 +440,10 @@ func (d *dataPlane) AddInternalInterface(localHost addr.Host, provider, localAdd
 	if internalUnderlay == nil {
 		return serrors.JoinNoStack(errNoSuchUnderlay, nil, "provider", provider)
 	}
+	// Hand the underlay the range known so far (empty if none was configured: everything then goes
+	// to the default end-host port).
+	internalUnderlay.SetDispatchPorts(
+		d.dispatchedPortStart, d.dispatchedPortEnd, topology.EndhostPort)
 	iMetrics := newInterfaceMetrics(d.Metrics, 0, d.localIA, "", d.neighborIAs[0])
 	lk, err := internalUnderlay.NewInternalLink(localAddr, d.RunConfig.BatchSize, iMetrics)
 	if err != nil {
